@@ -16,7 +16,7 @@ COMPONENTS = {"real": ["Atoms.__delitem__, _delete_and_reindex_atom_index_array,
               "stub": ["none needed: no random, clock or I/O on this path (stated in DESIGN: weakest fit of the technique)"],
               "oracle_only": ["mofsim.refmodel.RefAtoms.delete"]}
 ASSUMPTIONS = ["indices are distinct, valid and non-negative, as the quantifier says"]
-NRUNS = {"quick": 1200, "thorough": 30000}
+NRUNS = {"quick": 6000, "thorough": 80000}
 MUST_REACH = ["exhaustive_subsets", "deletions_touching_terms", "op_pop"]
 
 
